@@ -200,7 +200,7 @@ fn prop_cfg(id: &str, thorough: bool) -> Option<PropCfg> {
             probe: Some(("queries", 1, if t { 6 } else { 15 })),
             faultenum: false,
             attach: false,
-            runs: pick(1200, 5000),
+            runs: pick(700, 5000),
             max_steps: 100,
             kinds: NONE_KINDS,
         },
@@ -216,7 +216,7 @@ fn prop_cfg(id: &str, thorough: bool) -> Option<PropCfg> {
         },
         "C19" => PropCfg {
             id: "C19",
-            modes: vec![Faulty, BadInput, General, Flipper],
+            modes: vec![Faulty, BadInput, General, Flipper, CycleHeavy],
             probe: Some(("coins", 1, if t { 4 } else { 10 })),
             faultenum: false,
             attach: true,
@@ -410,10 +410,10 @@ fn reach_wanted(id: &str) -> &'static [&'static str] {
             "fee_paid_after_denom_switch", "cycle_with_pending_fee", "fault_fired_msg",
         ],
         "C11" => &["buy_at_exactly_5000bps", "buy_refused_royalty_cap", "buy_royalty_paid", "two_nfts_of_one_registered_collection"],
-        "C12" => &["refused_bad_deposit", "refused_bad_ask", "refused_over_25", "topup_to_25", "merged_topup"],
+        "C12" => &["refused_bad_deposit", "refused_bad_ask", "refused_over_25", "topup_to_25", "merged_topup", "refused_dup_nft"],
         "C13" => &[
             "cycle_week_minus_1s", "cycle_at_week", "cycle_week_plus_1s", "cycle_ok", "second_cycle_same_second",
-            "cycle_with_pending_fee", "fee_in_usdc", "fee_in_juno",
+            "cycle_with_pending_fee", "fee_in_usdc", "fee_in_juno", "cycle_in_week_second_but_less_than_a_week",
         ],
         "C14" => &[
             "register_ok", "update_ok", "remove_ok", "partial_update_ok", "refused_reg_cooldown", "refused_reg_not_admin",
@@ -427,14 +427,14 @@ fn reach_wanted(id: &str) -> &'static [&'static str] {
         "C16" => &[
             "owner_with_over_240_buckets", "page_above_12_nonempty", "expired_within_current_second",
             "expiring_within_current_second", "whitelist_query_with_sold_or_expired", "fee_query_before_switch",
-            "fee_query_after_switch",
+            "fee_query_after_switch", "set_check_at_forked_expiry_instant", "max_lifetime_listing_in_its_last_second",
         ],
         "C18" => &[
             "hostile_vs_preparing", "hostile_vs_finalized", "hostile_vs_sold", "hostile_vs_bucket", "hostile_vs_proceeds_bucket",
         ],
         "C19" => &[
             "coins_on_message_that_would_succeed", "coins_on_message_that_would_fail", "coins_on_receive_entry_point",
-            "refused_coins_attached",
+            "refused_coins_attached", "several_denoms_on_receive_entry_point", "coins_on_due_fee_cycle",
         ],
         _ => &[],
     }
@@ -497,6 +497,8 @@ fn write_evidence(id: &str, tier: &str, seed: u64, prop: &PropCfg, b: &run::Batc
             "swarm_modes": b.modes,
             "distinct_state_classes": b.state_classes.len(),
             "distinct_transitions": b.transitions.len(),
+            "distinct_interleavings_per_listing": b.interleavings.len(),
+            "interleaving_measure": "distinct sequences of (actor role in order of first appearance, message kind, outcome) aimed at one listing id over its whole life",
             "reach_probes": reach,
             "reach_ok": missing.is_empty(),
             "reach_missing": missing,
